@@ -1,4 +1,5 @@
 //! qv: runtime-monitoring harness for quinn (see /verif/DESIGN.md)
+pub mod alloc;
 pub mod app;
 pub mod cfg;
 pub mod check;
